@@ -45,6 +45,13 @@ def order_sensitive(o):
     return o[0] == "l" and (len(o[1]) >= 2 or any(org == "K" for org, _, _ in o[1]))
 
 
+def case_order_sensitive(args):
+    """case level: the operands together hold two or more items (a union / intersection / chain can tie
+    items of different operands), or an item of K"""
+    ls = [o for o in args if o[0] == "l"]
+    return any(order_sensitive(o) for o in ls) or sum(len(o[1]) for o in ls) >= 2
+
+
 def gen_native_cases(ctx):
     cases = []
     per_op = 130 if ctx.quick() else 1500
@@ -228,7 +235,7 @@ def run(ctx):
         for k, (op, args) in enumerate(cases):
             coq = [op_coq(x) for x in args]
             a = ";".join(coq)
-            if any(order_sensitive(x) for x in args):
+            if case_order_sensitive(args):
                 exprs.append(f"all_orders (fun oo => run_native oo true fo defs {op} [{a}])")
             else:
                 exprs.append(f"run_native ord_id true fo defs {op} [{a}]")
@@ -257,7 +264,7 @@ def run(ctx):
         hexprs = []
         for a, op1, b, op2 in chains:
             body = f"run_native2 oo true fo defs {op1} [{op_coq(a)};{op_coq(b)}] {op2} []"
-            if order_sensitive(a) or order_sensitive(b):
+            if any(x[0] == "l" and x[1] for x in (a, b)):
                 hexprs.append(f"all_orders (fun oo => {body})")
             else:
                 hexprs.append(f"(fun oo => {body}) ord_id")
